@@ -1,2 +1,475 @@
+import RsomeV.L.NdLemmas
+
+/-! C05: the NumPy index maps behind rsome's selector matrices are what the array operators mean.
+Model: `RsomeV/M/NdArray.lean` (tied to real NumPy by the differential test of the `nd_*` driver ops);
+helper lemmas: `RsomeV/L/NdLemmas.lean`. -/
+
 namespace RsomeV.C05
+open List RsomeV.Nd
+
+/-! ## 1. ravel / unravel are mutually inverse -/
+
+/-- Unravelling a flat position `k` of an array and ravelling the multi-index again gives `k` back. -/
+theorem ravel_unravel (shape : List Nat) (k : Nat) (h : k < size shape) :
+    ravel shape (unravel shape k) = k :=
+  Nd.ravel_unravel h
+
+example : unravel [2, 3, 4] 17 = [1, 1, 1] ∧ ravel [2, 3, 4] [1, 1, 1] = 17 := by decide
+
+/-- Ravelling a legal multi-index (right number of components, each below its dimension) and
+unravelling the flat position gives the multi-index back. -/
+theorem unravel_ravel (shape idx : List Nat) (hl : idx.length = shape.length)
+    (hb : ∀ j, j < shape.length → idx.getD j 0 < shape.getD j 0) :
+    unravel shape (ravel shape idx) = idx :=
+  Nd.unravel_ravel (validIdx_iff.2 ⟨hl, hb⟩)
+
+example : unravel [2, 3] (ravel [2, 3] [1, 2]) = [1, 2] := by decide
+
+/-- The flat position of a legal multi-index lies inside the array. -/
+theorem ravel_lt (shape idx : List Nat) (hl : idx.length = shape.length)
+    (hb : ∀ j, j < shape.length → idx.getD j 0 < shape.getD j 0) :
+    ravel shape idx < size shape :=
+  Nd.ravel_lt (validIdx_iff.2 ⟨hl, hb⟩)
+
+example : ravel [2, 3] [1, 2] = 5 ∧ size [2, 3] = 6 := by decide
+
+/-- The multi-index of a flat position inside the array is legal. -/
+theorem unravel_valid (shape : List Nat) (k : Nat) (h : k < size shape) :
+    (unravel shape k).length = shape.length ∧
+    ∀ j, j < shape.length → (unravel shape k).getD j 0 < shape.getD j 0 :=
+  validIdx_iff.1 (validIdx_unravel h)
+
+example : unravel [2, 3] 5 = [1, 2] := by decide
+
+/-! ## 2. broadcasting -/
+
+/-- The defining property of NumPy broadcasting: if `a` and `b` broadcast to `t`, the element of the
+broadcast of `a` at flat position `k` of `t` is the element of `a` whose multi-index is the multi-index
+of `k` in `t`, restricted to the trailing `a.length` axes, with 0 on every axis where `a` has length 1;
+and that element exists. -/
+theorem bcastFlat_spec {a b t : List Nat} (h : broadcastShapes a b = some t) {k : Nat} (hk : k < size t) :
+    unravel a (bcastFlat a t k) =
+      zipWith (fun d i => if d = 1 then 0 else i) a ((unravel t k).drop (t.length - a.length))
+    ∧ bcastFlat a t k < size a := by
+  have hc := (broadcastShapes_compat h).1
+  have hv := validIdx_bcastIdx hc.2 (validIdx_unravel hk)
+  refine ⟨?_, Nd.ravel_lt hv⟩
+  have := Nd.unravel_ravel hv
+  simpa [bcastFlat, bcastIdx] using this
+
+example : broadcastShapes [2, 1, 3] [4, 1] = some [2, 4, 3] ∧
+    unravel [2, 4, 3] 17 = [1, 1, 2] ∧ bcastFlat [2, 1, 3] [2, 4, 3] 17 = ravel [2, 1, 3] [1, 0, 2] ∧
+    bcastFlat [4, 1] [2, 4, 3] 17 = ravel [4, 1] [1, 0] := by decide
+
+/-- The same for the right operand. -/
+theorem bcastFlat_spec_right {a b t : List Nat} (h : broadcastShapes a b = some t) {k : Nat} (hk : k < size t) :
+    unravel b (bcastFlat b t k) =
+      zipWith (fun d i => if d = 1 then 0 else i) b ((unravel t k).drop (t.length - b.length))
+    ∧ bcastFlat b t k < size b := by
+  have hc := (broadcastShapes_compat h).2
+  have hv := validIdx_bcastIdx hc.2 (validIdx_unravel hk)
+  refine ⟨?_, Nd.ravel_lt hv⟩
+  have := Nd.unravel_ravel hv
+  simpa [bcastFlat, bcastIdx] using this
+
+example : bcastFlat [4, 1] [2, 4, 3] 17 = 1 := by decide
+
+/-- Component-wise reading of `bcastFlat_spec`: axis `j` of the source multi-index is axis
+`t.length - a.length + j` of the target multi-index, or 0 where `a` has length 1. -/
+theorem bcastFlat_spec_getD {a b t : List Nat} (h : broadcastShapes a b = some t) {k : Nat} (hk : k < size t)
+    (j : Nat) (hj : j < a.length) :
+    (unravel a (bcastFlat a t k)).getD j 0 =
+      if a.getD j 0 = 1 then 0 else (unravel t k).getD (t.length - a.length + j) 0 := by
+  rw [(bcastFlat_spec h hk).1]
+  have hl := (broadcastShapes_compat h).1.1
+  have h2 : t.length - a.length + j < t.length := by omega
+  simp [List.getD_eq_getElem?_getD, getElem?_zipWith, hj, h2]
+
+/-- What the broadcast shape is: each operand is at most as long as `t`, and each of its dimensions
+is 1 or the dimension of `t` at the right-aligned position. -/
+theorem broadcastShapes_dims {a b t : List Nat} (h : broadcastShapes a b = some t) :
+    (a.length ≤ t.length ∧ ∀ j, j < a.length → a.getD j 0 = 1 ∨ a.getD j 0 = t.getD (t.length - a.length + j) 0) ∧
+    (b.length ≤ t.length ∧ ∀ j, j < b.length → b.getD j 0 = 1 ∨ b.getD j 0 = t.getD (t.length - b.length + j) 0) := by
+  obtain ⟨⟨ha, hca⟩, ⟨hb, hcb⟩⟩ := broadcastShapes_compat h
+  refine ⟨⟨ha, fun j hj => ?_⟩, ⟨hb, fun j hj => ?_⟩⟩
+  · have := (compat_iff.1 hca).2 j hj
+    simpa using this
+  · have := (compat_iff.1 hcb).2 j hj
+    simpa using this
+
+example : broadcastShapes [2, 1, 3] [4, 1] = some [2, 4, 3] ∧ broadcastShapes [2, 3] [4, 1] = none := by decide
+
+/-! ## 3. transpose -/
+
+/-- Element `k` of `a.T` is the element of `a` whose multi-index is the reversed multi-index of `k`
+(taken in the reversed shape). -/
+theorem transposeSrc_spec (shape : List Nat) (k : Nat) (h : k < size shape) :
+    unravel shape (transposeSrc shape k) = (unravel shape.reverse k).reverse := by
+  have hv : ValidIdx shape (unravel shape.reverse k).reverse := by
+    have := validIdx_reverse (validIdx_unravel (shape := shape.reverse) (by rwa [size_reverse]))
+    rwa [reverse_reverse] at this
+  exact Nd.unravel_ravel hv
+
+example : transposeSrc [2, 3] 3 = 4 ∧ unravel [3, 2] 3 = [1, 1] ∧ unravel [2, 3] 4 = [1, 1] := by decide
+
+/-- The source position of an element of `a.T` lies inside `a`. -/
+theorem transposeSrc_lt (shape : List Nat) (k : Nat) (h : k < size shape) :
+    transposeSrc shape k < size shape := by
+  have hv : ValidIdx shape (unravel shape.reverse k).reverse := by
+    have := validIdx_reverse (validIdx_unravel (shape := shape.reverse) (by rwa [size_reverse]))
+    rwa [reverse_reverse] at this
+  exact Nd.ravel_lt hv
+
+example : (List.range 6).map (transposeSrc [2, 3]) = [0, 3, 1, 4, 2, 5] := by decide
+
+/-- Transposing twice is the identity: the index map of the reversed shape undoes the index map of
+the shape. -/
+theorem transposeSrc_involutive (shape : List Nat) (k : Nat) (h : k < size shape) :
+    transposeSrc shape.reverse (transposeSrc shape k) = k := by
+  have h' : k < size shape.reverse := by rwa [size_reverse]
+  have := transposeSrc_spec shape k h
+  unfold transposeSrc at this ⊢
+  rw [reverse_reverse, this, reverse_reverse]
+  exact Nd.ravel_unravel h'
+
+example : transposeSrc [3, 2] (transposeSrc [2, 3] 3) = 3 := by decide
+
+/-- `transposeSrc` is a bijection of the flat positions: the list of source positions is a
+permutation of `range (size shape)`. -/
+theorem transposeSrc_perm (shape : List Nat) :
+    (range (size shape)).map (transposeSrc shape) ~ range (size shape) :=
+  perm_range_of_leftInverse _ (transposeSrc shape.reverse) (transposeSrc_lt shape)
+    (transposeSrc_involutive shape)
+
+example : (List.range 6).map (transposeSrc [2, 3]) ~ List.range 6 := by decide
+
+/-! ## 4. matmul -/
+
+/-- 2-D `@`: `[m,n] @ [n,p]` has shape `[m,p]`, and output element `(r, c)` (flat `r*p + c`) adds up
+`A[r,i] * B[i,c]` over `i < n`: the pairs are `(r*n + i, i*p + c)`. -/
+theorem matmulPairs_2d (m n p : Nat) :
+    matmulShape [m, n] [n, p] = some [m, p] ∧
+    (matmulPairs [m, n] [n, p]).length = m * p ∧
+    ∀ r c, r < m → c < p →
+      (matmulPairs [m, n] [n, p])[r * p + c]? = some ((range n).map fun i => (r * n + i, i * p + c)) := by
+  have h := matmul_eq_core (ba := []) (bb := []) m n p (broadcastShapes_nil_left [])
+  simp only [nil_append] at h
+  refine ⟨h.1, by rw [h.2, length_matmulCore]; simp, fun r c hr hc => ?_⟩
+  have := matmulCore_getElem? (broadcastShapes_nil_left []) (m := m) (n := n) (p := p) (β := 0) (r := r) (c := c)
+    (by simp) hr hc
+  rw [h.2]
+  simpa [bcastFlat_nil] using this
+
+example : matmulPairs [2, 3] [3, 2] =
+    [[(0, 0), (1, 2), (2, 4)], [(0, 1), (1, 3), (2, 5)], [(3, 0), (4, 2), (5, 4)], [(3, 1), (4, 3), (5, 5)]] := by
+  decide
+
+/-- Batched `@` with broadcasting of the batch axes on both sides: for `a = ba ++ [m,n]`,
+`b = bb ++ [n,p]` whose batch shapes broadcast to `bt`, the result has shape `bt ++ [m,p]`, and output
+element `(β, r, c)` (`β` a flat batch position) adds up, over `i < n`, the element `(r, i)` of the
+matrix of `a` that broadcasting assigns to `β` times the element `(i, c)` of the matrix of `b` that
+broadcasting assigns to `β`. -/
+theorem matmulPairs_batch {ba bb bt : List Nat} (m n p : Nat) (h : broadcastShapes ba bb = some bt) :
+    matmulShape (ba ++ [m, n]) (bb ++ [n, p]) = some (bt ++ [m, p]) ∧
+    (matmulPairs (ba ++ [m, n]) (bb ++ [n, p])).length = size bt * (m * p) ∧
+    ∀ β r c, β < size bt → r < m → c < p →
+      (matmulPairs (ba ++ [m, n]) (bb ++ [n, p]))[β * (m * p) + r * p + c]? =
+        some ((range n).map fun i =>
+          (bcastFlat ba bt β * (m * n) + r * n + i, bcastFlat bb bt β * (n * p) + i * p + c)) := by
+  have h' := matmul_eq_core m n p h
+  refine ⟨h'.1, by rw [h'.2, length_matmulCore], fun β r c hβ hr hc => ?_⟩
+  rw [h'.2]
+  exact matmulCore_getElem? h hβ hr hc
+
+example : matmulShape [2, 1, 2, 3] [4, 3, 2] = some [2, 4, 2, 2] ∧
+    (matmulPairs [2, 1, 2, 3] [4, 3, 2])[(1 * 4 + 2) * (2 * 2) + 1 * 2 + 0]? =
+      some [(1 * 6 + 1 * 3 + 0, 2 * 6 + 0 * 2 + 0), (1 * 6 + 1 * 3 + 1, 2 * 6 + 1 * 2 + 0),
+            (1 * 6 + 1 * 3 + 2, 2 * 6 + 2 * 2 + 0)] := by decide
+
+/-- Batched left operand, plain matrix on the right: every batch uses the same `B`. -/
+theorem matmulPairs_batch_left (ba : List Nat) (m n p : Nat) :
+    matmulShape (ba ++ [m, n]) [n, p] = some (ba ++ [m, p]) ∧
+    ∀ β r c, β < size ba → r < m → c < p →
+      (matmulPairs (ba ++ [m, n]) [n, p])[β * (m * p) + r * p + c]? =
+        some ((range n).map fun i => (β * (m * n) + r * n + i, i * p + c)) := by
+  have h := matmulPairs_batch (bb := []) m n p (broadcastShapes_nil_right ba)
+  simp only [nil_append] at h
+  refine ⟨h.1, fun β r c hβ hr hc => ?_⟩
+  have := h.2.2 β r c hβ hr hc
+  simpa [bcastFlat_nil, bcastFlat_self hβ] using this
+
+example : (matmulPairs [2, 2, 2] [2, 1])[3]? = some [(6, 0), (7, 1)] := by decide
+
+/-- Plain matrix on the left, batched right operand: every batch uses the same `A`. -/
+theorem matmulPairs_batch_right (bb : List Nat) (m n p : Nat) :
+    matmulShape [m, n] (bb ++ [n, p]) = some (bb ++ [m, p]) ∧
+    ∀ β r c, β < size bb → r < m → c < p →
+      (matmulPairs [m, n] (bb ++ [n, p]))[β * (m * p) + r * p + c]? =
+        some ((range n).map fun i => (r * n + i, β * (n * p) + i * p + c)) := by
+  have h := matmulPairs_batch (ba := []) m n p (broadcastShapes_nil_left bb)
+  simp only [nil_append] at h
+  refine ⟨h.1, fun β r c hβ hr hc => ?_⟩
+  have := h.2.2 β r c hβ hr hc
+  simpa [bcastFlat_nil, bcastFlat_self hβ] using this
+
+example : (matmulPairs [1, 2] [2, 2, 1])[1]? = some [(0, 2), (1, 3)] := by decide
+
+/-- 1-D left operand: the vector is used as a single row and the row axis is dropped from the
+result, `(v @ B)[β, c] = Σ_i v[i] * B[β, i, c]`. -/
+theorem matmulPairs_vec_left (bb : List Nat) (n p : Nat) :
+    matmulShape [n] (bb ++ [n, p]) = some (bb ++ [p]) ∧
+    ∀ β c, β < size bb → c < p →
+      (matmulPairs [n] (bb ++ [n, p]))[β * p + c]? =
+        some ((range n).map fun i => (i, β * (n * p) + i * p + c)) := by
+  have h := matmulPairs_batch_right bb 1 n p
+  have e : matmulPairs [n] (bb ++ [n, p]) = matmulPairs [1, n] (bb ++ [n, p]) := by
+    simp [matmulPairs, promoteL]
+  refine ⟨?_, fun β c hβ hc => ?_⟩
+  · simp [matmulShape, promoteL, batchOf, rowsOf, colsOf, List.getD_eq_getElem?_getD, broadcastShapes_nil_left]
+  · have := h.2 β 0 c hβ (by omega) hc
+    rw [e]
+    simpa using this
+
+example : matmulShape [3] [2, 3, 2] = some [2, 2] ∧
+    (matmulPairs [3] [2, 3, 2])[3]? = some [(0, 7), (1, 9), (2, 11)] := by decide
+
+/-- 1-D right operand: the vector is used as a single column and the column axis is dropped,
+`(A @ v)[β, r] = Σ_i A[β, r, i] * v[i]`. -/
+theorem matmulPairs_vec_right (ba : List Nat) (m n : Nat) :
+    matmulShape (ba ++ [m, n]) [n] = some (ba ++ [m]) ∧
+    ∀ β r, β < size ba → r < m →
+      (matmulPairs (ba ++ [m, n]) [n])[β * m + r]? =
+        some ((range n).map fun i => (β * (m * n) + r * n + i, i)) := by
+  have h := matmulPairs_batch_left ba m n 1
+  have e : matmulPairs (ba ++ [m, n]) [n] = matmulPairs (ba ++ [m, n]) [n, 1] := by
+    simp [matmulPairs, promoteR]
+  refine ⟨?_, fun β r hβ hr => ?_⟩
+  · simp [matmulShape, promoteR, batchOf, rowsOf, colsOf, List.getD_eq_getElem?_getD, broadcastShapes_nil_right]
+  · have := h.2 β r 0 hβ hr (by omega)
+    rw [e]
+    simpa using this
+
+example : matmulShape [2, 2, 3] [3] = some [2, 2] ∧
+    (matmulPairs [2, 2, 3] [3])[3]? = some [(9, 0), (10, 1), (11, 2)] := by decide
+
+/-- Two vectors: the inner product, a 0-d result. -/
+theorem matmulPairs_vec_vec (n : Nat) :
+    matmulShape [n] [n] = some [] ∧ matmulPairs [n] [n] = [(range n).map fun i => (i, i)] := by
+  have h := matmulPairs_2d 1 n 1
+  have e : matmulPairs [n] [n] = matmulPairs [1, n] [n, 1] := by
+    simp [matmulPairs, promoteR, promoteL]
+  refine ⟨by simp [matmulShape, promoteL, promoteR, batchOf, rowsOf, colsOf, broadcastShapes_nil_left], ?_⟩
+  rw [e]
+  have h1 := h.2.1
+  have h2 := h.2.2 0 0 (by omega) (by omega)
+  match hm : matmulPairs [1, n] [n, 1], h1, h2 with
+  | [x], _, h2 => simpa using h2
+
+example : matmulPairs [3] [3] = [[(0, 0), (1, 1), (2, 2)]] := by decide
+
+/-! ## 5. slices -/
+
+/-- The model of `range(lo, hi, s)`: it has the elements `lo + i*s` (`i = 0, 1, …`) that lie before
+`hi` in the direction of the step, and nothing for `s = 0`. -/
+theorem pyRange_spec (lo hi s x : Int) :
+    x ∈ pyRange lo hi s ↔ ∃ i : Nat, x = lo + (i : Int) * s ∧ ((0 < s ∧ x < hi) ∨ (s < 0 ∧ hi < x)) :=
+  mem_pyRange
+
+example : pyRange 1 8 3 = [1, 4, 7] ∧ pyRange 4 (-1) (-2) = [4, 2, 0] ∧ pyRange 3 3 1 = [] := by decide
+
+/-- The `i`-th element of `range(lo, hi, s)` is `lo + i*s`: the first element is `lo` and consecutive
+elements differ by `s`. -/
+theorem pyRange_getElem? (lo hi s : Int) (i : Nat) (h : i < (pyRange lo hi s).length) :
+    (pyRange lo hi s)[i]? = some (lo + (i : Int) * s) :=
+  getElem?_pyRange (by simpa using h)
+
+example : (pyRange 4 (-1) (-2))[2]? = some (4 + 2 * (-2)) := by decide
+
+/-- The normalised start of a slice is what CPython's `PySlice_AdjustIndices` computes: a missing
+start is the first position in the direction of the step; a negative one counts from the end; the
+result is clipped to `[0, n]` for a positive and to `[-1, n-1]` for a negative step. -/
+theorem sliceLo_spec (n : Nat) (v s : Int) :
+    sliceLo n none s = (if s < 0 then (n : Int) - 1 else 0) ∧
+    (0 < s → sliceLo n (some v) s = max 0 (min (n : Int) (if v < 0 then v + n else v))) ∧
+    (s < 0 → sliceLo n (some v) s = max (-1) (min ((n : Int) - 1) (if v < 0 then v + n else v))) := by
+  refine ⟨rfl, fun h => ?_, fun h => ?_⟩
+  · rw [sliceLo_some, show decide (s < 0) = false by simp; omega, adjustBound_pos]
+  · rw [sliceLo_some, show decide (s < 0) = true by simp; omega, adjustBound_neg]
+
+example : sliceLo 5 (some (-2)) 1 = 3 ∧ sliceLo 5 (some 9) (-1) = 4 ∧ sliceLo 5 (some (-9)) (-1) = -1 := by decide
+
+/-- The normalised stop of a slice, likewise (a missing stop is one past the last position in the
+direction of the step). -/
+theorem sliceHi_spec (n : Nat) (v s : Int) :
+    sliceHi n none s = (if s < 0 then -1 else (n : Int)) ∧
+    (0 < s → sliceHi n (some v) s = max 0 (min (n : Int) (if v < 0 then v + n else v))) ∧
+    (s < 0 → sliceHi n (some v) s = max (-1) (min ((n : Int) - 1) (if v < 0 then v + n else v))) := by
+  refine ⟨rfl, fun h => ?_, fun h => ?_⟩
+  · rw [sliceHi_some, show decide (s < 0) = false by simp; omega, adjustBound_pos]
+  · rw [sliceHi_some, show decide (s < 0) = true by simp; omega, adjustBound_neg]
+
+example : sliceHi 5 (some (-1)) 2 = 4 ∧ sliceHi 5 none (-1) = -1 := by decide
+
+/-- Every position selected by a slice of an axis of length `n` is below `n`. -/
+theorem sliceIdx_lt (n : Nat) (start stop step : Option Int) :
+    ∀ x ∈ sliceIdx n start stop step, x < n := by
+  intro x hx
+  simp only [sliceIdx, mem_map] at hx
+  obtain ⟨y, hy, rfl⟩ := hx
+  have := pyRange_slice_bounds n start stop _ y hy
+  omega
+
+example : sliceIdx 5 none (some (-1)) (some 2) = [0, 2] := by decide
+
+/-- `sliceIdx` is exactly Python's `range` over the normalised bounds (no information is lost by
+returning natural numbers). -/
+theorem sliceIdx_eq_pyRange (n : Nat) (start stop step : Option Int) :
+    (sliceIdx n start stop step).map Int.ofNat =
+      pyRange (sliceLo n start (step.getD 1)) (sliceHi n stop (step.getD 1)) (step.getD 1) := by
+  simp only [sliceIdx, map_map]
+  conv => rhs; rw [← map_id (pyRange _ _ _)]
+  apply map_congr_left
+  intro y hy
+  have := pyRange_slice_bounds n start stop _ y hy
+  simp only [Function.comp_apply, id_eq]
+  exact Int.toNat_of_nonneg this.1
+
+example : (sliceIdx 5 (some (-1)) none (some (-2))).map Int.ofNat = pyRange 4 (-1) (-2) := by decide
+
+/-- Full characterisation of a slice: with `s` the step (1 if missing) and `lo`, `hi` the
+normalised bounds, (a) the `i`-th selected position is `lo + i*s` (so the first one is the normalised
+start and consecutive ones differ by `s`), and (b) a position is selected iff it is `lo + i*s` for
+some `i` and lies before `hi` in the direction of the step. A zero step selects nothing. -/
+theorem sliceIdx_spec (n : Nat) (start stop step : Option Int) :
+    (∀ i, i < (sliceIdx n start stop step).length →
+      ∃ x, (sliceIdx n start stop step)[i]? = some x ∧
+        (x : Int) = sliceLo n start (step.getD 1) + (i : Int) * step.getD 1) ∧
+    (∀ x : Nat, x ∈ sliceIdx n start stop step ↔
+      ∃ i : Nat, (x : Int) = sliceLo n start (step.getD 1) + (i : Int) * step.getD 1 ∧
+        ((0 < step.getD 1 ∧ (x : Int) < sliceHi n stop (step.getD 1)) ∨
+         (step.getD 1 < 0 ∧ sliceHi n stop (step.getD 1) < (x : Int)))) := by
+  have he := sliceIdx_eq_pyRange n start stop step
+  constructor
+  · intro i hi
+    have hlen : i < (pyRange (sliceLo n start (step.getD 1)) (sliceHi n stop (step.getD 1)) (step.getD 1)).length := by
+      rw [← he]; simpa using hi
+    have h1 := pyRange_getElem? _ _ _ i hlen
+    rw [← he, getElem?_map] at h1
+    obtain ⟨x, hx, hx'⟩ := Option.map_eq_some_iff.1 h1
+    exact ⟨x, hx, hx'⟩
+  · intro x
+    rw [← mem_pyRange, ← he, mem_map]
+    constructor
+    · intro h; exact ⟨x, h, rfl⟩
+    · rintro ⟨y, hy, hxy⟩
+      have : y = x := by exact Int.ofNat_inj.1 hxy
+      exact this ▸ hy
+
+example : sliceIdx 7 (some 5) (some (-7)) (some (-2)) = [5, 3, 1] ∧ sliceIdx 7 none none (some 0) = [] := by decide
+
+/-! ## 6. axis sums -/
+
+/-- A negative axis counts from the end; anything outside `[-rank, rank)` is rejected. -/
+theorem normAxis_spec (rank : Nat) (axis : Int) (k : Nat) :
+    normAxis rank axis = some k ↔ k < rank ∧ ((axis : Int) = k ∨ (axis : Int) = (k : Int) - rank) := by
+  unfold normAxis
+  split
+  · simp only [Option.some.injEq]; omega
+  · split
+    · simp only [Option.some.injEq]; omega
+    · simp only [reduceCtorEq, false_iff]; omega
+
+example : normAxis 3 (-1) = some 2 ∧ normAxis 3 2 = some 2 ∧ normAxis 3 3 = none ∧ normAxis 3 (-4) = none := by
+  decide
+
+/-- Flat form of the axis sum: for an array of shape `pre ++ [d] ++ post` summed over the axis of
+length `d`, output element `o = p * size post + q` adds up the `d` positions
+`p * (d * size post) + j * size post + q`, `j < d`, i.e. the elements `a[p…, j, q…]`. -/
+theorem sumAxisGroups_flat (pre post : List Nat) (d : Nat) :
+    sumAxisGroups (pre ++ d :: post) pre.length =
+      (range (size pre * size post)).map fun o =>
+        (range d).map fun j => (o / size post) * (d * size post) + j * size post + o % size post :=
+  sumAxisGroups_append pre post d
+
+example : sumAxisGroups [2, 3, 2] 1 = [[0, 2, 4], [1, 3, 5], [6, 8, 10], [7, 9, 11]] := by decide
+
+/-- The groups of `a.sum(axis)` partition the positions of `a`: they are pairwise disjoint, their
+concatenation is a permutation of all flat positions, each group has `shape[axis]` members, and there
+is one group per element of the result. -/
+theorem sumAxisGroups_partition (shape : List Nat) (axis : Nat) (h : axis < shape.length) :
+    (sumAxisGroups shape axis).Pairwise List.Disjoint ∧
+    (sumAxisGroups shape axis).flatten ~ range (size shape) ∧
+    (∀ g ∈ sumAxisGroups shape axis, g.length = shape.getD axis 0) ∧
+    (sumAxisGroups shape axis).length = size (shape.eraseIdx axis) := by
+  refine ⟨?_, ?_, ?_, ?_⟩
+  · obtain ⟨hs, hl⟩ := shape_split h
+    have := (sumAxis_flat_partition (size (shape.take axis)) (shape.getD axis 0) (size (shape.drop (axis + 1)))).1
+    rw [← sumAxisGroups_append, hl, ← hs] at this
+    exact this
+  · obtain ⟨hs, hl⟩ := shape_split h
+    have := (sumAxis_flat_partition (size (shape.take axis)) (shape.getD axis 0) (size (shape.drop (axis + 1)))).2
+    rw [← sumAxisGroups_append, hl, ← hs] at this
+    have e : size shape = size (shape.take axis) * shape.getD axis 0 * size (shape.drop (axis + 1)) := by
+      conv => lhs; rw [hs]
+      rw [size_append, size_cons, Nat.mul_assoc]
+    rw [e]; exact this
+  · intro g hg
+    simp only [sumAxisGroups, mem_map] at hg
+    obtain ⟨o, _, rfl⟩ := hg
+    simp
+  · simp [sumAxisGroups]
+
+example : (sumAxisGroups [2, 3] 1) = [[0, 1, 2], [3, 4, 5]] ∧ (sumAxisGroups [2, 3] 0) = [[0, 3], [1, 4], [2, 5]] := by
+  decide
+
+/-! ## 7. diagonals -/
+
+/-- `np.diag(a, k)` of a `rows × cols` array reads exactly the positions `(i, j)` with `j - i = k`:
+a flat position is listed iff it is `i*cols + j` for such a pair inside the array. -/
+theorem diagIdx_spec (rows cols : Nat) (k : Int) (x : Nat) :
+    x ∈ diagIdx rows cols k ↔ ∃ i j, i < rows ∧ j < cols ∧ (j : Int) - i = k ∧ x = i * cols + j :=
+  mem_diagIdx
+
+example : diagIdx 3 2 (-1) = [2, 5] ∧ diagIdx 3 4 1 = [1, 6, 11] ∧ diagIdx 2 2 5 = [] := by decide
+
+/-- The diagonal is listed in increasing row order: the `t`-th entry is at row `t + max(0,-k)` and
+column `t + max(0,k)`, there are `min (rows - max(0,-k)) (cols - max(0,k))` entries, and the flat
+positions are strictly increasing (so together with `diagIdx_spec` the list is determined). -/
+theorem diagIdx_order (rows cols : Nat) (k : Int) :
+    diagIdx rows cols k = ((range (diagIdx rows cols k).length).map fun t =>
+      (t + (-k).toNat) * cols + (t + k.toNat)) ∧
+    (diagIdx rows cols k).length = min (rows - (-k).toNat) (cols - k.toNat) ∧
+    (diagIdx rows cols k).Pairwise (· < ·) :=
+  ⟨diagIdx_eq rows cols k, length_diagIdx rows cols k, diagIdx_sorted rows cols k⟩
+
+example : diagIdx 4 3 (-2) = [(0 + 2) * 3 + 0, (1 + 2) * 3 + 1] := by decide
+
+/-! ## 8. extras: `swapaxes(-1,-2)` and `concatenate` -/
+
+/-- `np.swapaxes(a, -1, -2)` for `a` of shape `b ++ [m,n]` has shape `b ++ [n,m]`, and its element
+`(β, c, r)` is the element `(β, r, c)` of `a`. -/
+theorem swapLastSrc_spec (b : List Nat) (m n β r c : Nat) (hβ : β < size b) (hr : r < m) (hc : c < n) :
+    swapLast (b ++ [m, n]) = b ++ [n, m] ∧
+    swapLastSrc (b ++ [m, n]) (β * (n * m) + c * m + r) = β * (m * n) + r * n + c :=
+  ⟨swapLast_append_two b m n, swapLastSrc_append_two hβ hr hc⟩
+
+example : swapLast [2, 3, 4] = [2, 4, 3] ∧ swapLastSrc [2, 3, 4] (1 * 12 + 3 * 3 + 2) = 1 * 12 + 2 * 4 + 3 := by
+  decide
+
+/-- `np.concatenate((a, b), axis)` for shapes `pre ++ [da] ++ post` and `pre ++ [db] ++ post`: the
+result has `da + db` along the axis, and its element `(p, i, q)` is `a[p, i, q]` for `i < da` and
+`b[p, i - da, q]` otherwise. -/
+theorem concatSrc_spec (pre post : List Nat) (da db p i q : Nat) (hp : p < size pre) (hi : i < da + db)
+    (hq : q < size post) :
+    concatShape (pre ++ da :: post) (pre ++ db :: post) pre.length = some (pre ++ (da + db) :: post) ∧
+    (concatSrc (pre ++ da :: post) (pre ++ db :: post) pre.length)[p * ((da + db) * size post) + i * size post + q]? =
+      some (if i < da then (false, p * (da * size post) + i * size post + q)
+            else (true, p * (db * size post) + (i - da) * size post + q)) :=
+  ⟨concatShape_append pre post da db, concatSrc_getElem? hp hi hq⟩
+
+example : concatShape [2, 3] [1, 3] 0 = some [3, 3] ∧
+    concatSrc [2, 3] [1, 3] 0 =
+      [(false, 0), (false, 1), (false, 2), (false, 3), (false, 4), (false, 5), (true, 0), (true, 1), (true, 2)] ∧
+    concatShape [2, 3] [1, 2] 0 = none := by decide
+
 end RsomeV.C05
